@@ -39,6 +39,8 @@ func checkC06(c *Ctx) {
 	// carries the fields of the message only if the codec's length tables and its dirty discipline hold
 	c.typeTables()
 	c.dirtyDiscipline()
+	// answers computed once and kept are reset by every update of what they were computed from
+	c.memoisedViews()
 }
 
 func (c *Ctx) levelSplitter() {
